@@ -261,13 +261,13 @@ example : RfcClean [66] wContent ∧ ¬ DelimFree (bndOf [66]) wContent := by de
 
 /-- **What this model assumes of `fp.readline` is what C05 proves of `SizedReader.readline`.**
     For a request with a declared length that the connection delivers (`Enough`), no body limit and
-    no server-side failure: from every state satisfying the reader invariant, `readline(n)` (any
+    no server-side failure: from every not-yet-finished state satisfying the reader invariant, `readline(n)` (any
     `n ≠ 0`, in particular `readline()` and `readline(1 << 16)`) succeeds, returns exactly what the
     cursor `Src.readline` returns on the abstract state `(rest, done)`, and leaves a state whose
     abstraction is the cursor's next state — for every buffer size and fragmentation plan. -/
 theorem C04_readline_is_cursor (cfg : Cfg) (hb : 1 ≤ cfg.bufsize) (hm : cfg.maxbytes = none)
     (hl : cfg.length.isSome = true) (s : St) (hi : C05.Inv cfg s) (he : C05.Enough cfg s)
-    (hf : s.failAt = none) (n : Option Nat) (h0 : n ≠ some 0) :
+    (hf : s.failAt = none) (hd : s.done = false) (n : Option Nat) (h0 : n ≠ some 0) :
     ∃ s', readline cfg s n = (.ok (Src.readline ⟨C05.rest cfg s, s.done⟩).1, s') ∧
       (⟨C05.rest cfg s', s'.done⟩ : Src) = (Src.readline ⟨C05.rest cfg s, s.done⟩).2 ∧
       C05.Inv cfg s' ∧ C05.Enough cfg s' ∧ s'.failAt = none := by
@@ -290,7 +290,7 @@ theorem C04_readline_is_cursor (cfg : Cfg) (hb : 1 ≤ cfg.bufsize) (hm : cfg.ma
     refine ⟨s', ?_, ?_, i1, en1 he, hfa⟩
     · simp only [Src.readline]; rw [e1]; simp
     · simp only [Src.readline]
-      rw [e2, e4 he hl]
+      rw [e2, e4 he hl hd, hd]; simp
 
 /-- `fp.finish()` on the reader is `Src.finish` on the abstraction. -/
 theorem C04_finish_is_cursor (cfg : Cfg) (s : St) :
